@@ -646,6 +646,43 @@ func TestC04(t *testing.T) {
 	}
 
 	jsonSeeds, gobSeeds := c04Seeds()
+	// lists whose later member repeats an earlier one (same id and type, or both without id) and adds one property in one value shape:
+	// list decoding compares every new member with the earlier ones, so each term's comparison code runs on "set on one side only"
+	if r.WantLayer("near-dups", true) {
+		shapes := []string{`"https://example.com/v"`, `""`, `{"type":"Link","href":"https://example.com/l"}`, `{"id":"https://example.com/o","type":"Note"}`, `{"name":"anonymous"}`,
+			`["https://example.com/1","https://example.com/2"]`, `[]`, `{}`, `null`, `7`, `true`, `{"en":"text"}`, `"plain text"`}
+		bases := []string{`"id":"https://example.com/x","type":"Page"`, `"type":"Image","name":"pic"`, `"id":"https://example.com/p","type":"Person"`, `"id":"https://example.com/c","type":"Create"`,
+			`"id":"https://example.com/q","type":"Question"`, `"id":"https://example.com/oc","type":"OrderedCollectionPage"`, `"id":"https://example.com/pl","type":"Place"`}
+		n := 0
+		for ti, term := range c04Terms {
+			for si, sh := range shapes {
+				for bi, base := range bases {
+					plain, more := "{"+base+"}", "{"+base+`,"`+term+`":`+sh+"}"
+					docs := []string{
+						`{"type":"Note","id":"https://example.com/n","tag":[` + plain + `,` + more + `]}`,
+						`{"type":"Note","id":"https://example.com/n","attachment":[` + more + `,` + plain + `]}`,
+						`[` + plain + `,` + more + `,` + plain + `]`,
+						`{"type":"OrderedCollection","id":"https://example.com/col","orderedItems":[` + more + `,` + more + `,` + plain + `]}`,
+					}
+					doc := []byte(docs[(ti+si+bi)%len(docs)])
+					e := entryByName[[]string{"UnmarshalJSON", "(*Object).UnmarshalJSON", "(*OrderedCollection).UnmarshalJSON", "(*ItemCollection).UnmarshalJSON"}[(ti+si)%4]]
+					if e.name == "" {
+						e = entryByName["UnmarshalJSON"]
+					}
+					cell := fmt.Sprintf("%s near-dup %s shape#%d base#%d", e.name, term, si, bi)
+					if !r.WantCell(cell) {
+						continue
+					}
+					n++
+					ds, oc := c04Call(e, doc, false)
+					record("near-dups", cell, e, doc, ds, oc, n%1499 == 0)
+				}
+			}
+		}
+		r.Cells(len(c04Terms)*len(shapes)*len(bases), n)
+		r.Exhaustive("near-dups", !r.Replaying())
+	}
+
 	if r.WantLayer("truncation", true) {
 		n := 0
 		run := func(kind string, seeds [][]byte, classes map[string]bool, maxSeeds int) {
